@@ -101,6 +101,19 @@ def check(run, ctx):
     ok = any(isinstance(n, ast.Dict) and any(isinstance(k, ast.Constant) and k.value == "_project_root" and ast.unparse(v) == "self.project_root" for k, v in zip(n.keys, n.values)) for n in inline.flat_nodes(repo, lf))   # the context may be built by a private helper
     (run.ok(Q3, "lint_file metadata", "_project_root = self.project_root") if ok else run.finding(Q3, "Orchestrator.lint_file", "metadata-root", "rules are not told the orchestrator's project root", lf.loc))
 
+    gd = repo.func("src.cli.utils.get_or_detect_project_root")
+    ppar = gd.node.args.args[0].arg
+    from ..util import expand_locals
+    starts = [c_ for c_ in ast.walk(gd.node) if is_call_named(c_, "get_project_root")]
+    run.require(bool(starts), "get_or_detect_project_root no longer calls get_project_root")
+    off_target = [c_ for c_ in starts if not (c_.args and any(isinstance(x, ast.Name) and x.id == ppar for x in ast.walk(expand_locals(gd.node, c_.args[0]))))]
+    spelled = [c_ for c_ in ast.walk(gd.node) if is_call_named(c_, "is_absolute")]
+    if off_target or spelled:
+        w_ = norm(off_target[0]) if off_target else norm(spelled[0])
+        run.finding(Q3, "get_or_detect_project_root", f"root-search-start:{w_}", f"the search for the project root does not always start at the first target (`{w_}`): how the target is spelled (relative vs absolute) or the working directory decides which project configuration and ignore file are found", gd.loc)
+    else:
+        run.ok(Q3, "get_or_detect_project_root", "the upward search starts at the first target (its directory), whatever its spelling")
+
     Q2 = run.rule("Q2", "path predicates over directory components are applied to project-relative paths", floor=15,
                   decides="built-in exclusions, test-file exemptions and per-linter ignore patterns are decided by the path inside the project")
     n_sites = 0
@@ -118,7 +131,14 @@ def check(run, ctx):
         elif rel:
             run.ok(Q2, sym, f"{norm(hits[0])} after relative_to(...)")
         else:
-            run.finding(Q2, sym, f"absolute-path-predicate:{norm(hits[0])}", f"{f.qual}: `{norm(hits[0])}` inspects the file path as spelled by the caller (absolute when the target was absolute), so directory names leading to the project decide the verdict", f.loc)
+            # one finding per predicate: a second, different predicate in a function that already has a known one is new
+            seen_txt = set()
+            for h in hits:
+                t_ = norm(h)
+                if t_ in seen_txt:
+                    continue
+                seen_txt.add(t_)
+                run.finding(Q2, sym, f"absolute-path-predicate:{t_}", f"{f.qual}: `{t_}` inspects the file path as spelled by the caller (absolute when the target was absolute), so directory names leading to the project decide the verdict", f.loc)
     run.require(n_sites >= 15, f"only {n_sites} path-predicate functions found")
 
     Q4 = run.rule("Q4", "path-keyed tables: the key written and the key looked up go through the same canonicalisation (resolve/absolute/relative_to/...)", floor=3,
@@ -126,12 +146,54 @@ def check(run, ctx):
     CANON = {"resolve", "absolute", "relative_to", "as_posix", "lower", "normpath", "realpath", "abspath", "expanduser", "casefold", "normcase"}
 
     def canon(f, e):
-        out = {call_name(x) for x in ast.walk(e) if isinstance(x, ast.Call) and call_name(x) in CANON}
+        # canonicalising calls in the key expression, in the helpers it calls (a `_key(path)` function) and in the local
+        # definitions of the names it uses
+        out = {call_name(x) for x in inline.expr_nodes(repo, f, e) if isinstance(x, ast.Call) and call_name(x) in CANON}
         for nm in {x.id for x in ast.walk(e) if isinstance(x, ast.Name)}:
             for a in ast.walk(f.node):
                 if isinstance(a, ast.Assign) and any(isinstance(t, ast.Name) and t.id == nm for t in a.targets):
-                    out |= {call_name(x) for x in ast.walk(a.value) if isinstance(x, ast.Call) and call_name(x) in CANON}
+                    out |= {call_name(x) for x in inline.expr_nodes(repo, f, a.value) if isinstance(x, ast.Call) and call_name(x) in CANON}
         return out
+
+    def param_reads(g, pname, depth=2, seen=None):
+        """(function, key expression) for every lookup `p.get(k)`, `p[k]`, `k in p` on parameter p of g, following p when it is passed on"""
+        seen = seen or set()
+        if (g.qual, pname) in seen or depth < 0:
+            return []
+        seen.add((g.qual, pname))
+        out_ = []
+        for n in ast.walk(g.node):
+            if isinstance(n, ast.Call) and isinstance(n.func, ast.Attribute) and n.func.attr in ("get", "pop") and isinstance(n.func.value, ast.Name) and n.func.value.id == pname and n.args:
+                out_.append((g, n.args[0]))
+            if isinstance(n, ast.Subscript) and isinstance(n.ctx, ast.Load) and isinstance(n.value, ast.Name) and n.value.id == pname:
+                out_.append((g, n.slice))
+            if isinstance(n, ast.Compare) and isinstance(n.ops[0], (ast.In, ast.NotIn)) and isinstance(n.comparators[0], ast.Name) and n.comparators[0].id == pname:
+                out_.append((g, n.left))
+            if isinstance(n, ast.Call):
+                out_ += passed_reads(g, n, lambda a: isinstance(a, ast.Name) and a.id == pname, depth - 1, seen)
+        return out_
+
+    def passed_reads(owner, call, is_table, depth=2, seen=None):
+        """lookups performed by the callee(s) of `call` on the parameter that receives the table"""
+        out_ = []
+        pos = [i for i, a in enumerate(call.args) if is_table(a)]
+        kws = [k.arg for k in call.keywords if k.arg and is_table(k.value)]
+        if not pos and not kws:
+            return out_
+        st = cg.site_of(owner.module.name, call)
+        for cq_ in (st or {}).get("callees", ()):
+            g = repo.funcs.get(cq_)
+            if g is None:
+                continue
+            params = [a.arg for a in g.node.args.posonlyargs + g.node.args.args]
+            if g.cls is not None and params and params[0] in ("self", "cls"):
+                params = params[1:]
+            for i in pos:
+                if i < len(params):
+                    out_ += param_reads(g, params[i], depth, seen)
+            for kname in kws:
+                out_ += param_reads(g, kname, depth, seen)
+        return out_
 
     for cq, c in sorted(repo.classes.items()):
         if not cq.startswith("src."):
@@ -149,6 +211,26 @@ def check(run, ctx):
                     reads.setdefault(n.func.value.attr, []).append((m, n.args[0]))
                 if isinstance(n, ast.Compare) and isinstance(n.ops[0], (ast.In, ast.NotIn)) and isinstance(n.comparators[0], ast.Attribute) and isinstance(n.comparators[0].value, ast.Name) and n.comparators[0].value.id == "self":
                     reads.setdefault(n.comparators[0].attr, []).append((m, n.left))
+                if isinstance(n, ast.Call):   # the table handed to another function: its lookups count as reads
+                    for a_ in list(n.args) + [k.value for k in n.keywords]:
+                        if isinstance(a_, ast.Attribute) and isinstance(a_.value, ast.Name) and a_.value.id == "self":
+                            attr_ = a_.attr
+                            for g_, k_ in passed_reads(m, n, lambda x, attr_=attr_: isinstance(x, ast.Attribute) and isinstance(x.value, ast.Name) and x.value.id == "self" and x.attr == attr_):
+                                reads.setdefault(attr_, []).append((g_, k_))
+                            # the table stored in a record field (IgnoreContext(file_contents=self._file_contents)): wherever
+                            # <record>.<field> is handed to a function of the same package, that function's lookups are reads too
+                            st_ = cg.site_of(m.module.name, n)
+                            if st_ and any(c_.startswith("new:") for c_ in st_.get("callees", ())):
+                                for kw_ in n.keywords:
+                                    if kw_.value is a_ and kw_.arg:
+                                        pkg_ = m.module.name.rsplit(".", 1)[0]
+                                        for h_ in repo.funcs.values():
+                                            if not h_.module.name.startswith(pkg_) or h_.parent is not None:
+                                                continue
+                                            for c2 in ast.walk(h_.node):
+                                                if isinstance(c2, ast.Call):
+                                                    for g_, k_ in passed_reads(h_, c2, lambda x, fld=kw_.arg: isinstance(x, ast.Attribute) and x.attr == fld and not (isinstance(x.value, ast.Name) and x.value.id == "self")):
+                                                        reads.setdefault(attr_, []).append((g_, k_))
         for attr, sts in stores.items():
             if not any("path" in ast.unparse(k).lower() or "file" in ast.unparse(k).lower() for _, k in sts):
                 continue
